@@ -205,13 +205,10 @@ def check(P: Project, R: Report) -> None:
          sample=f"R4 version constants rebound at run time: {sorted(rebound) or 'none'}")
 
     # ------------------------------------------------------------------ R5: an unsupported request is still answered
-    R.rule("R5", "every initialize is answered with a version: on either arm of the handler's supported-version test nothing can raise before the answer is built — what is computed there for a log line (a diagnosis of the request, a date difference) is either contained or cannot raise; an exception would be turned into -32603 by the dispatcher and the handshake would end with neither an agreed version nor a version-mismatch error")
+    R.rule("R5", "every initialize is answered with a version: between reading the requested version and recording the session nothing can raise — what is computed there for a log line (a diagnosis of the request, a date difference) is either contained or cannot raise; an exception would be turned into -32603 by the dispatcher and the handshake would end with neither an agreed version nor a version-mismatch error")
     from ..paths import calls_in_order, is_benign_call
     from ..flow import ANY_EXC
     from ..summaries import contained
-
-    tests = [i_ for i_ in walk_local(h.node) if isinstance(i_, ast.If) and ("is_supported(" in ast.unparse(i_.test) or "SUPPORTED_VERSIONS" in ast.unparse(i_.test))]
-    R.need(tests, "anchor: the handler's supported-version test was not found")
 
     def arm_pred(node_, st_, an_):
         hv_ = tuple(h_.name for h_ in an_.handler_stack if h_.name)
@@ -226,12 +223,17 @@ def check(P: Project, R: Report) -> None:
             return {ANY_EXC}
         return set()
 
-    for i_ in tests:
-        for arm_name, arm in (("supported", i_.body), ("unsupported", i_.orelse)):
-            if not arm:
-                continue
-            aa_, ao_ = run_paths(ast.Module(body=arm, type_ignores=[]), fallible_pred=arm_pred)
-            esc_ = sorted({(getattr(n_, "lineno", 0), ast.unparse(n_)[:70]) for _s, t_, n_ in ao_.exc if t_ != "Cancelled"})
-            R.ob("R5", f"nothing on the {'then' if arm_name == 'supported' else 'else'} arm of `{ast.unparse(i_.test)[:50]}` can raise", not esc_, f"{h.module.rel}:{i_.lineno}",
-                 f"`{esc_[0][1] if esc_ else ''}` (line {esc_[0][0] if esc_ else 0}) calls code that can raise for some requested versions (a well-shaped string that is not a calendar date, a non-string): that initialize is answered with -32603 instead of a supported version, no session is recorded, and a library client ends in an error that is neither agreement nor VersionMismatchError",
-                 sample=f"R5 arms of `{ast.unparse(i_.test)[:40]}` cannot raise")
+    # the statements between reading the requested version and recording the session: whatever decides the answer
+    body_ = h.node.body
+    i_req = next((i for i, s_ in enumerate(body_) if "'protocolVersion'" in ast.unparse(s_) and ".get(" in ast.unparse(s_)), None)
+    i_ses = next((i for i, s_ in enumerate(body_) if "create_session(" in ast.unparse(s_)), None)
+    R.need(i_req is not None and i_ses is not None and i_req < i_ses, "anchor: the handler's statements between reading the requested version and creating the session were not found")
+    region = body_[i_req + 1:i_ses]
+    if region:
+        aa_, ao_ = run_paths(ast.Module(body=region, type_ignores=[]), fallible_pred=arm_pred)
+        esc_ = sorted({(getattr(n_, "lineno", 0), ast.unparse(n_)[:70]) for _s, t_, n_ in ao_.exc if t_ != "Cancelled"})
+    else:
+        esc_ = []
+    R.ob("R5", "nothing between reading the requested version and recording the session can raise", not esc_, f"{h.module.rel}:{body_[i_req].lineno}",
+         f"`{esc_[0][1] if esc_ else ''}` (line {esc_[0][0] if esc_ else 0}) calls code that can raise for some requested versions (a well-shaped string that is not a calendar date, a non-string): that initialize is answered with -32603 instead of a supported version, no session is recorded, and a library client ends in an error that is neither agreement nor VersionMismatchError",
+         sample=f"R5 {len(region)} statement(s) decide the answer; none can raise")
